@@ -45,7 +45,10 @@ def addrEngine : Engine := fun inp obs =>
         if let some i := bad.head? then
           .viol "C13" s!"{fieldNames.getD i "?"} = {nums.getD i 0}, but the stored objects give {spec.getD i 0} (replace refs / grafts must not change what is measured)"
         else if style == "full" && (witS.splitOn ",").any (fun w => (w.splitOn ":").getD 1 "" == "0") then
-          .viol "C08" "a printed description does not resolve to the cited object"
+          -- F18: a description with non-UTF-8 bytes is lossy in JSON (U+FFFD)
+          (if (witS.splitOn ",").all (fun w => (w.splitOn ":").getD 1 "" != "0" || ((w.splitOn ":").getD 2 "").toLower.replace "efbfbd" "" != ((w.splitOn ":").getD 2 "").toLower)
+           then .known "F18" "a description containing non-UTF-8 bytes is lossy in JSON and does not resolve"
+           else .viol "C08" "a printed description does not resolve to the cited object")
         else .ok
     | _, _ => .bad "decode"
   | _, ["dup"] => .ok "trivial"
